@@ -41,14 +41,25 @@ Theorem C11_mem_delivered_matches : forall s c q topics now upd s' m,
   poll s c q Normal topics now upd = (s', PDelivered m) -> in_queue q m = true /\ topic_ok topics m = true.
 Proof. exact delivered_matches. Qed.
 
-(* in-memory broker: a foreign, non-expired message at the head is only rotated - same record, still waiting, nothing
-   dead-lettered, nobody holds it *)
-Theorem C11_mem_foreign_untouched : forall s c q topics now upd m rest,
-  take_first (in_queue q) (simple (pre_poll s q now upd)) = Some (m, rest) ->
-  msg_overdue m now = false -> topic_ok topics m = false ->
-  let s1 := pre_poll s q now upd in
-  poll s c q Normal topics now upd = (mkS (rest ++ [m]) (delayed s1) (dead s) (processing s) (gone s1) (stamp s1) (clk s1), PNone).
+(* in-memory broker: live messages of topics the consumer does not serve are untouched by its poll - the same records
+   (payload, parameters) in the same order, still waiting, not dead-lettered, held by nobody - whatever else the poll did *)
+Theorem C11_mem_foreign_untouched : forall s c q topics now upd,
+  filter (foreign q topics now) (simple (fst (poll s c q Normal topics now upd))) =
+  filter (foreign q topics now) (simple (pre_poll s q now upd)).
 Proof. exact foreign_untouched. Qed.
+
+(* ... and they never block it (since the fix recorded for C11; before it a foreign message at the head hid the ones behind
+   it and two consumers could rotate the list in lock-step for ever): a poll delivers exactly when a live message of its
+   queue and topics is waiting ANYWHERE in the list, and it delivers the first one *)
+Theorem C11_mem_foreign_never_blocks : forall s c q topics now upd,
+  snd (poll s c q Normal topics now upd) =
+  match find (hit q topics now) (simple (pre_poll s q now upd)) with Some m => PDelivered m | None => PNone end.
+Proof. exact foreign_never_blocks. Qed.
+
+(* messages of other queues are not looked at *)
+Theorem C11_mem_other_queues_untouched : forall s c q topics now upd q', q' <> q ->
+  filter (in_queue q') (simple (fst (poll s c q Normal topics now upd))) = filter (in_queue q') (simple (pre_poll s q now upd)).
+Proof. exact other_queues_untouched. Qed.
 
 (* the registration as it was before the fix: a job sent to the OLD queue of an overridden name was executed by the
    new actor (which is registered for another queue) *)
@@ -66,4 +77,6 @@ Print Assumptions C11_dispatch_exact.
 Print Assumptions C11_dispatch_none.
 Print Assumptions C11_mem_delivered_matches.
 Print Assumptions C11_mem_foreign_untouched.
+Print Assumptions C11_mem_foreign_never_blocks.
+Print Assumptions C11_mem_other_queues_untouched.
 Print Assumptions C11_override_before_fix_refuted.
